@@ -959,3 +959,74 @@ Section Main.
       unfold mem_str. cbn [existsb]. rewrite String.eqb_refl. apply Bool.orb_true_r.
   Qed.
 End Main.
+
+(* ================================================================== *)
+(* 10. reading EXISTS element-wise; name clashes                       *)
+(* ================================================================== *)
+
+Lemma mapM_ok_Forall2_7 {X Y} (f : X -> res Y) l : forall l',
+  mapM f l = Ok l' -> Forall2 (fun x y => f x = Ok y) l l'.
+Proof.
+  induction l as [|a l IH]; intros l' H; cbn [mapM] in H.
+  - inversion H. constructor.
+  - apply bind_ok7 in H. destruct H as (b & Hb & H). apply bind_ok7 in H. destruct H as (bs & Hbs & H).
+    inversion H; subst. constructor; auto.
+Qed.
+
+Lemma Forall2_In_r {X Y} (R : X -> Y -> Prop) l l' y :
+  Forall2 R l l' -> In y l' -> exists x, In x l /\ R x y.
+Proof.
+  induction 1 as [|a b l l' Hab _ IH]; intros Hin; [contradiction|].
+  destruct Hin as [<-|Hin]; [exists a; split; [left; reflexivity|exact Hab]|].
+  destruct (IH Hin) as (x & Hx & Hr). exists x. split; [right; exact Hx|exact Hr].
+Qed.
+
+Lemma Forall2_In_l {X Y} (R : X -> Y -> Prop) l l' x :
+  Forall2 R l l' -> In x l -> exists y, In y l' /\ R x y.
+Proof.
+  induction 1 as [|a b l l' Hab _ IH]; intros Hin; [contradiction|].
+  destruct Hin as [<-|Hin]; [exists b; split; [left; reflexivity|exact Hab]|].
+  destruct (IH Hin) as (y & Hy & Hr). exists y. split; [right; exact Hy|exact Hr].
+Qed.
+
+(* whenever EXISTS has a value: it is true iff some element of the nested array satisfies p on the
+   element's columns merged with the outer row *)
+Theorem exists_sem_true_iff pred outer elems b :
+  exists_sem pred outer elems = Ok b ->
+  (b = true <-> exists kv, In (VObj kv) elems /\ pred (obj_merge kv outer) = Ok true).
+Proof.
+  unfold exists_sem. intros H. apply bind_ok7 in H. destruct H as (ms & Hms & H).
+  destruct (mapM pred ms) as [bs| | |] eqn:Hbs; cbn [bind catch_panic] in H; try discriminate.
+  inversion H; subst b. apply mapM_ok_Forall2_7 in Hms. apply mapM_ok_Forall2_7 in Hbs.
+  rewrite existsb_exists. split.
+  - intros (x & Hx & ->).
+    destruct (Forall2_In_r _ _ _ _ Hbs Hx) as (m & Hm & Hpm).
+    destruct (Forall2_In_r _ _ _ _ Hms Hm) as (e & He & Hem).
+    destruct e; try discriminate. inversion Hem; subst m. eauto.
+  - intros (kv & Hin & Hp).
+    destruct (Forall2_In_l _ _ _ _ Hms Hin) as (m & Hm & Hem). inversion Hem; subst m.
+    destruct (Forall2_In_l _ _ _ _ Hbs Hm) as (b & Hb & Hpb). rewrite Hp in Hpb. inversion Hpb; subst b.
+    exists true. split; [exact Hb|reflexivity].
+Qed.
+
+(* which value p sees under a column name: the outer row's (its last binding, as maps.Copy goes
+   through the outer row after the element), else the element's *)
+Theorem obj_merge_lookup k outer : forall kv,
+  lookup k (obj_merge kv outer) =
+  match lookup k (rev outer) with Some v => Some v | None => lookup k kv end.
+Proof.
+  unfold obj_merge. induction outer as [|[kx vx] outer IH] using rev_ind; intros kv; [reflexivity|].
+  rewrite fold_left_app, rev_app_distr. cbn [fold_left rev app lookup fst snd].
+  destruct (String.eqb k kx) eqn:He.
+  - apply String.eqb_eq in He. subst kx. apply lookup_obj_set_same.
+  - apply String.eqb_neq in He. rewrite lookup_obj_set_other by exact He. apply IH.
+Qed.
+
+Corollary exists_clash_outer_wins k v outer kv :
+  lookup k (rev outer) = Some v -> lookup k (obj_merge kv outer) = Some v.
+Proof. intros H. rewrite obj_merge_lookup, H. reflexivity. Qed.
+
+Corollary exists_element_column k outer kv :
+  lookup k (rev outer) = None -> lookup k (obj_merge kv outer) = lookup k kv.
+Proof. intros H. rewrite obj_merge_lookup, H. reflexivity. Qed.
+
